@@ -1,15 +1,18 @@
 #!/usr/bin/env python3
 """try_refactor.py <id> [<diff file> [<note file>]] [--props=C01,C02]: apply a behaviour-preserving variant to a scratch copy of /repo and run the checks
-(all 20 by default) on it.  Any violation is a FALSE ALARM of the machinery.  With a diff file the variant is first stored under /verif/refactors/<id>/."""
+(all 20 by default; --tier=thorough for the thorough tier's extra configurations) on it.  Any violation is a FALSE ALARM of the machinery.  With a diff file the variant is first stored under /verif/refactors/<id>/."""
 import json, os, shutil, subprocess, sys
 HERE = os.path.dirname(os.path.dirname(os.path.abspath(__file__)))
 sys.path.insert(0, os.path.join(HERE, "rules"))
 from pvrules import selftest, extract, check
 args = [a for a in sys.argv[1:] if not a.startswith("--")]
 props = ["C%02d" % i for i in range(1, 21)]
+tier = "quick"
 for a in sys.argv[1:]:
     if a.startswith("--props="):
         props = a.split("=", 1)[1].split(",")
+    if a.startswith("--tier="):
+        tier = a.split("=", 1)[1]
 rid = args[0]
 rdir = os.path.join(HERE, "refactors", rid)
 if len(args) > 1:
@@ -26,7 +29,7 @@ try:
     share = {}
     for p in props:
         try:
-            bad, ctx = selftest.run_on(p, d, share=share)
+            bad, ctx = selftest.run_on(p, d, tier=tier, share=share)
             res[p] = sorted({o["key"] for o in bad})
         except extract.ExtractError as e:
             res[p] = ["<cannot analyse: %s>" % str(e)[-300:]]
